@@ -258,3 +258,24 @@ pub fn res_str(r: &Result<(), Error>) -> String {
         Err(e) => format!("err:{}", err_name(e)),
     }
 }
+
+thread_local! {
+    static FAIL_COUNT: std::cell::RefCell<HashMap<String, usize>> = std::cell::RefCell::new(HashMap::new());
+}
+
+/// `ctx.oracle_fail`, at most twice per key and run: the harness keeps 50 failures in all, and a
+/// failure that repeats on every batch (a schedule difference) must not crowd out the failing
+/// input the adaptive attacks find for the same cause.
+pub fn fail_limited(ctx: &mut mzkh::Ctx, key: &str, what: &str, detail: serde_json::Value) {
+    let n = FAIL_COUNT.with(|m| {
+        let mut m = m.borrow_mut();
+        let e = m.entry(key.to_string()).or_insert(0);
+        *e += 1;
+        *e
+    });
+    if n <= 2 {
+        ctx.oracle_fail(key, what, detail);
+    } else {
+        ctx.count(&format!("oracle_fail_suppressed:{key}"));
+    }
+}
